@@ -1,0 +1,16 @@
+//go:build verif
+
+package x509
+
+import "reflect"
+
+// ZVC05Types returns the unexported ASN.1 struct types that ParseCertificateRequest and
+// CreateRevocationList marshal/unmarshal (for schema reflection by the verification harness).
+func ZVC05Types() map[string]reflect.Type {
+	return map[string]reflect.Type{
+		"certificateRequest":    reflect.TypeOf(certificateRequest{}),
+		"tbsCertificateRequest": reflect.TypeOf(tbsCertificateRequest{}),
+		"publicKeyInfo":         reflect.TypeOf(publicKeyInfo{}),
+		"tbsCertificateList":    reflect.TypeOf(tbsCertificateList{}),
+	}
+}
